@@ -35,8 +35,12 @@ def load_dump(path):
             if len(parts) != 5:
                 continue
             file, fn, idx, op, args = parts
-            a = [bytes.fromhex(x).decode("utf-8", "replace") for x in args.split(",")] if args else []
-            fns.setdefault(f"{file}#{fn}", []).append((names.get(int(op), f"op{op}"), a))
+            try:
+                a = [bytes.fromhex(x).decode("utf-8", "replace") for x in args.split(",")] if args else []
+                fns.setdefault(f"{file}#{fn}", []).append((names.get(int(op), f"op{op}"), a))
+            except ValueError:
+                if line.endswith("\n"):
+                    raise             # only a line cut short by the death of the process may be malformed
     return fns
 
 
@@ -50,7 +54,11 @@ def load_trace(path):
             p = line.rstrip("\n").split("\t")
             if len(p) != 5:
                 continue
-            recs.append((p[0], int(p[1]), names.get(int(p[2]), p[2]), int(p[3]), int(p[4])))
+            try:
+                recs.append((p[0], int(p[1]), names.get(int(p[2]), p[2]), int(p[3]), int(p[4])))
+            except ValueError:
+                if line.endswith("\n"):
+                    raise
     return recs
 
 
